@@ -223,6 +223,9 @@ def native_script(desc, sgen_in, ctag_in):
                     rec = w[:5] + [None, w[7]]
                 else:
                     rec = w[:6] + [w[7]]
+                if w[:5] == [0] * 5 and w[5] == -16 and w[6] == -16 and w[7] == 0:
+                    # the all-zero record: what a reader that has never taken a snapshot holds (the model's T_DEFAULT tags)
+                    rec = [T_DEFAULT] * 6 + [(T_DEFAULT + 3) % 3]
                 res['calls'].append({'ok': True, 'rec': rec})
             else:
                 res['calls'].append({'ok': False, 'rec': None})
@@ -720,6 +723,13 @@ def check_c11(tier, seed):
     if not value_protocol(ck, P, pr, tier):
         return ck.finish()
     ck.absorb(pr)
+    # the generation never returns to 0 once the segment has been published to: a restarting writer takes over every segment a
+    # crash can leave (any non-zero generation, odd included) instead of wiping it
+    pru = Prover(seed)
+    usable_clause(ck, P, pru, seed)
+    ck.absorb(pru, 'restart: ')
+    if ck.violations:
+        return ck.finish()
     if P.writer_private_state:
         ck.cov['writer_private_state'] = P.writer_private_state
     # (2) as seen by a conforming third-party reader (acquire loads / acquire fence), under RC11:
@@ -808,9 +818,21 @@ def c18_loop_by_loop(ck, P, tier, seed):
             if ty == 'bool':
                 continue
             ok = bool(back)
+            is_range = isinstance(var, Struct) and len(var.f) == 2 and 'Range<' in ty
+            if isinstance(var, Struct) and not is_range:
+                continue
             for o in back:
                 sv = z3.Solver(); sv.set('timeout', 20000); sv.add(ex.side)
                 nv = o.state.mem.get((lp['frame'], l))
+                if is_range:
+                    # an integer range being consumed: its remaining length is the measure
+                    if not (isinstance(nv, Struct) and len(nv.f) == 2):
+                        ok = False; break
+                    old_m = var.f[1] - var.f[0]; new_m = nv.f[1] - nv.f[0]
+                    sv.add(o.state.pcond(), z3.Not(z3.And(new_m <= old_m - 1, old_m >= 1)))
+                    if sv.check() != z3.unsat:
+                        ok = False; break
+                    continue
                 if nv is None or not isinstance(nv, z3.ExprRef):
                     ok = False; break
                 sv.add(o.state.pcond(), z3.Not(z3.And(nv <= var - 1, var >= 1)))
@@ -1136,6 +1158,12 @@ def check_c04(tier, seed):
     # the daemon's own usability test, executed from its MIR (it decides whether the segment is wiped): every segment a crash can
     # leave behind after at least one publication - any non-zero generation, odd or even, ANY record content - must be kept
     usable_clause(ck, P, pr, seed)
+    # a start-up cut short inside wipe() must not leave a file clients can open (they would read a record nobody published)
+    try:
+        from .segment_files import wipe_crash_part
+        wipe_crash_part(ck, P.prog, seed)
+    except EngineError as e:
+        ck.inconclusive.append('crash inside wipe(): %s' % e)
     # control dependence in ShmWriter::new: wipe is called only when is_usable_segment failed; the version store follows on every success path
     usable, wipe_ok = P.writer_new_vars
     for pc, trace, v in P.writer_new_paths:
